@@ -55,7 +55,7 @@ class TranslateNode(Node, TranslatableTag):
     translations_var = "translations"
     message_count_var = "count"
     message_context_var = "context"
-    re_vars = re.compile(r"(?<!%)%\((\w+)\)s")
+    re_vars = re.compile(r"(?<!%)%\(([\w-]+)\)s")
 
     def __init__(
         self,
@@ -286,6 +286,7 @@ class TranslateTag(Tag):
     plural_name = "plural"
 
     re_whitespace = re.compile(r"\s*\n\s*")
+    re_var = re.compile(r"[\w-]+")
 
     # Override this to disable argument-less filters in translation expression
     # arguments.
@@ -377,7 +378,8 @@ class TranslateTag(Tag):
                         token=node.token,
                     )
 
-                if not isinstance(var, str):
+                if not isinstance(var, str) or not self.re_var.fullmatch(var):
+                    # Not a name that can stand in a `%(name)s` placeholder.
                     raise TranslationSyntaxError(
                         f"expected a translation variable, found '{expr}'",
                         token=node.token,
